@@ -1618,7 +1618,7 @@ def run(env, rep):
 
     for i, scn in enumerate(scns):
         if "proxy_uri_shape" in scn:
-            rep.count("proxy-uri:" + scn["proxy_uri_shape"].split("/", 1)[1])
+            rep.count("proxy-uri:" + scn["proxy_uri_shape"].split("/", 1)[-1])
         rep.count("alg-iv=%d" % scn["alg"][1])
         rep.count("idlen=%d/%d" % (len(unhx(scn["cid"])), len(unhx(scn["sid"]))))
         rep.count("idctx=" + ("none" if scn["idctx"] is None else str(len(unhx(scn["idctx"])))))
